@@ -84,13 +84,26 @@ def _classes(case, extra=()):
 # --------------------------------------------------------------------------
 # strategies
 
+def _ids(states, n, neg):
+    """numpy-style ids counted from the end (-1 is the last state) for every second member when `neg` is set: the
+    same states, another spelling"""
+    if not neg:
+        return list(states)
+    return [int(s_) - n if k % 2 == 0 else int(s_) for k, s_ in enumerate(states)]
+
+
 @st.composite
 def committor_case(draw, max_n=8):
     ch = draw(R.chain(max_n=max_n))
     src, snk = draw(R.disjoint_sets(ch["n"]))
-    return {"chain": ch, "container": draw(st.sampled_from(R.CONTAINERS)),
+    case = {"chain": ch, "container": draw(st.sampled_from(R.CONTAINERS)),
             "sources": src, "sinks": snk,
             "src_form": draw(st.sampled_from(R.SET_FORMS)), "snk_form": draw(st.sampled_from(R.SET_FORMS))}
+    if draw(st.integers(0, 5)) == 0:
+        case["neg_ids"] = True
+        case["src_form"] = "list" if case["src_form"] == "scalar" else case["src_form"]
+        case["snk_form"] = "list" if case["snk_form"] == "scalar" else case["snk_form"]
+    return case
 
 
 @st.composite
@@ -106,7 +119,7 @@ def mfpt_case(draw, max_n=8):
     return {"chain": ch, "container": draw(st.sampled_from(R.CONTAINERS)),
             "sinks": draw(sink_set(ch["n"])), "snk_form": draw(st.sampled_from(R.SET_FORMS)),
             "lag": draw(R.lag_strategy()), "pops": draw(st.sampled_from(["none", "given"])),
-            "style": draw(st.sampled_from(["keyword", "positional"]))}
+            "style": draw(st.sampled_from(["keyword", "positional"])), "neg_ids": draw(st.integers(0, 5)) == 0}
 
 
 @st.composite
@@ -178,13 +191,15 @@ def run_committor(case):
     n = T.shape[0]
     X = R.to_container(T, case["container"])
     src, snk = case["sources"], case["sinks"]
-    q = _quiet(tpt.committors, X, R.set_arg(src, case["src_form"]), R.set_arg(snk, case["snk_form"]))
+    neg = bool(case.get("neg_ids"))
+    q = _quiet(tpt.committors, X, R.set_arg(_ids(src, n, neg), case["src_form"]), R.set_arg(_ids(snk[::-1], n, neg)[::-1], case["snk_form"]))
     q = _vec(q, n, "committors")
     free = check_committor(T, q, src, snk)
     nt = n >= 4 and (len(src) >= 2 or len(snk) >= 2) and len(free) >= 1
     return Info(nt, _classes(case, ["n_sources=%s" % min(len(src), 3), "n_sinks=%s" % min(len(snk), 3),
                                     "intermediates=%s" % min(len(free), 2),
-                                    "src_form=" + case["src_form"], "snk_form=" + case["snk_form"]]))
+                                    "src_form=" + case["src_form"], "snk_form=" + case["snk_form"],
+                                    "negative_ids=%s" % neg]))
 
 
 # --------------------------------------------------------------------------
@@ -218,17 +233,20 @@ def run_mfpt_sinks(case):
     kw = {}
     if case["pops"] == "given":
         kw["populations"] = R.ref_stationary(T)
+    neg = bool(case.get("neg_ids")) and not (case["snk_form"] == "scalar" and len(snk) == 1)
+    snk_arg = R.set_arg(_ids(snk, n, neg), case["snk_form"])
     if case.get("style") == "positional":
         # documented order: mfpts(tprob, sinks, populations, lagtime)
-        m = _quiet(tpt.mfpts, X, R.set_arg(snk, case["snk_form"]), kw.get("populations"), lag)
+        m = _quiet(tpt.mfpts, X, snk_arg, kw.get("populations"), lag)
     else:
-        m = _quiet(tpt.mfpts, X, sinks=R.set_arg(snk, case["snk_form"]), lagtime=lag, **kw)
+        m = _quiet(tpt.mfpts, X, sinks=snk_arg, lagtime=lag, **kw)
     m = _vec(m, n, "mfpts(sinks)")
     free = check_mfpt(T, m, snk, lag)
     nt = n >= 4 and len(snk) >= 2 and len(free) >= 2
     return Info(nt, _classes(case, ["n_sinks=%s" % min(len(snk), 3), "non_sinks=%s" % min(len(free), 2),
                                     "lag=%s" % _lagclass(lag), "pops=" + case["pops"],
-                                    "snk_form=" + case["snk_form"], "style=" + case.get("style", "keyword")]))
+                                    "snk_form=" + case["snk_form"], "style=" + case.get("style", "keyword"),
+                                    "negative_ids=%s" % neg]))
 
 
 def _lagclass(lag):
@@ -454,6 +472,45 @@ def run_refill(case):
                 refilled=second.tolist(), fresh=fresh.tolist())
     return Info(n >= 4 and not np.array_equal(T, T2), _classes(case, ["first=" + case["first"], "second=" + case["second"]]))
 
+
+# --------------------------------------------------------------------------
+# clause 8: all-pairs table of hundreds of states (seeded): every column, also the last ones, is a single-sink solve
+
+@st.composite
+def many_states_case(draw):
+    return {"n": draw(st.sampled_from([511, 512, 513, 600, 700, 1025])), "seed": draw(st.integers(0, 2 ** 31 - 1)),
+            "lag": draw(st.sampled_from([1.0, 1.0, 0.5, 20])), "container": draw(st.sampled_from(["ndarray", "ndarray_F", "csr"])),
+            "cols": draw(st.lists(st.integers(0, 10 ** 6), min_size=2, max_size=4))}
+
+
+def run_many_states(case):
+    rng = np.random.RandomState(case["seed"])            # seed drawn by Hypothesis
+    n, lag = case["n"], case["lag"]
+    Wt = rng.rand(n, n) + 0.05
+    Wt = Wt * (rng.rand(n, n) < 0.3) + np.diag(rng.rand(n))
+    for k in range(n):
+        Wt[k, (k + 1) % n] += 0.5
+    T = Wt / Wt.sum(axis=1)[:, None]
+    A = _quiet(tpt.mfpts, R.to_container(T, case["container"]), lagtime=lag)
+    require(isinstance(A, np.ndarray), "all-pairs mfpts is not an ndarray", type=type(A).__name__)
+    A = _mat(A, n, "all-pairs mfpts")
+    cols = sorted(set([0, n - 1, n - 2, 511 % n, 512 % n] + [c % n for c in case["cols"]]))
+    for j in cols:
+        single = _vec(_quiet(tpt.mfpts, R.to_container(T, case["container"]), sinks=[j], lagtime=lag), n, "mfpts(sinks=[j])")
+        col = A[:, j]
+        scale = max(float(lag), float(np.max(np.abs(single))))
+        require(float(np.max(np.abs(col - single))) <= 1e-6 * scale, "all-pairs column differs from the single-sink computation "
+                "(hundreds of states)", j=j, n=n, column=col[:4].tolist(), single=single[:4].tolist(),
+                max_abs_column=float(np.max(np.abs(col))))
+        others = np.array([i for i in range(n) if i != j])
+        colz = single.copy()
+        colz[j] = 0.0
+        res = single[others] - lag - T[others] @ colz
+        require(float(np.max(np.abs(res))) <= 1e-7 * scale, "single-sink mfpts violate m_i = lag + sum_k T_ik m_k (hundreds of states)",
+                j=j, worst=float(np.max(np.abs(res))))
+    return Info(n > 512, ["many_n=%d" % n, "many_container=" + case["container"]],
+                key=[n, case["seed"], case["lag"], case["container"], case["cols"]])
+
 # --------------------------------------------------------------------------
 # exhaustive sub-domains (thorough): every source/sink pair, every sink set, on three fixed chains
 
@@ -567,6 +624,8 @@ CLAUSES = [
            doc="tprob, sources, sinks, populations are left as passed"),
     Clause("second_call_refilled", refill_case(), run_refill, quick=600, thorough=5000,
            doc="call, refill the same container object in place with another chain, call again: values are those of the new chain"),
+    Clause("allpairs_many_states", many_states_case(), run_many_states, quick=8, thorough=80,
+           doc="511..1025 states: columns 0, 511, 512, n-2, n-1 and drawn ones of the all-pairs table == single-sink solves"),
     Clause("committor_first_step_large", committor_case(max_n=25), run_committor, quick=0, thorough=2500),
     Clause("mfpt_sinks_first_step_large", mfpt_case(max_n=25), run_mfpt_sinks, quick=0, thorough=2500),
     Clause("mfpt_allpairs_columns_large", allpairs_case(max_n=16), run_allpairs, quick=0, thorough=800),
